@@ -218,6 +218,49 @@ def replace_node(root: ast.AST, old: ast.AST, new: ast.AST) -> ast.AST:
     return cur
 
 
+class _Pseudo:
+    """Stand-in for a FuncInfo: the loop a call of any()/all() over a generator expression stands for."""
+
+    def __init__(self, name, node, module):
+        self.name = name
+        self.qualname = "<builtin %s>" % name
+        self.node = node
+        self.module = module
+        self.cls = None
+        self.decorators: List[str] = []
+        self.is_async = False
+        self.pseudo = True
+
+
+def desugar_any_all(call: ast.Call) -> Optional[ast.FunctionDef]:
+    """``any(E for T in I if C)`` -> ``for T in I: if C: if E: return True`` / ``return False`` (all(): dually).
+    Only the single-``for`` form; evaluation order and short-circuiting are those of the built-in."""
+    if not (isinstance(call.func, ast.Name) and call.func.id in ("any", "all") and len(call.args) == 1 and not call.keywords):
+        return None
+    g = call.args[0]
+    if not isinstance(g, (ast.GeneratorExp, ast.ListComp)) or len(g.generators) != 1 or g.generators[0].is_async:
+        return None
+    gen = g.generators[0]
+    ln = getattr(call, "lineno", 0)
+    is_any = call.func.id == "any"
+    test = g.elt if is_any else ast.UnaryOp(op=ast.Not(), operand=g.elt)
+    inner: ast.stmt = ast.If(test=test, body=[ast.Return(value=ast.Constant(value=is_any))], orelse=[])
+    for c in reversed(gen.ifs):
+        inner = ast.If(test=c, body=[inner], orelse=[])
+    loop = ast.For(target=gen.target, iter=gen.iter, body=[inner], orelse=[])
+    fn = ast.FunctionDef(name="__%s__" % call.func.id,
+                         args=ast.arguments(posonlyargs=[], args=[], vararg=None, kwonlyargs=[], kw_defaults=[], kwarg=None, defaults=[]),
+                         body=[loop, ast.Return(value=ast.Constant(value=not is_any))], decorator_list=[], returns=None)
+    for x in ast.walk(fn):
+        if not hasattr(x, "lineno"):
+            x.lineno = ln
+            x.col_offset = 0
+        if not hasattr(x, "end_lineno"):
+            x.end_lineno = getattr(x, "lineno", ln)
+            x.end_col_offset = 0
+    return fn
+
+
 class Inliner:
     def __init__(self, program, reference: Optional[Set[str]]):
         self.P = program
@@ -233,10 +276,14 @@ class Inliner:
     # -- which call may be inlined
     def target(self, root: FuncInfo, site: ast.AST, stack: List[str], usage: str) -> Optional[FuncInfo]:
         """*usage*: value | yieldfrom | for | with."""
-        if self.reference is None:
-            return None
         call = site.value if isinstance(site, (ast.Await, ast.YieldFrom)) else site
         if not isinstance(call, ast.Call):
+            return None
+        if site is call and usage == "value" and len(stack) < MAX_DEPTH + 2:
+            fn_ = desugar_any_all(call)
+            if fn_ is not None:
+                return _Pseudo(call.func.id, fn_, root.module)
+        if self.reference is None:
             return None
         if any(isinstance(a, ast.Starred) for a in call.args) or any(k.arg is None for k in call.keywords):
             return None
@@ -329,7 +376,8 @@ class Inliner:
         call = site.value if isinstance(site, (ast.Await, ast.YieldFrom)) else site
         self.count += 1
         k = self.count
-        self.inlined.setdefault(t.qualname, set()).add(root.qualname)
+        if not getattr(t, "pseudo", False):
+            self.inlined.setdefault(t.qualname, set()).add(root.qualname)
         a = t.node.args
         params = [x.arg for x in a.posonlyargs + a.args]
         kwonly = [x.arg for x in a.kwonlyargs]
